@@ -23,6 +23,7 @@ type c01Cell struct {
 	// hash the payload does not have" check)
 	payload []byte
 	content []byte // the blob the declared digest was computed from
+	presentBefore bool // the true blob was uploaded before this cell
 }
 
 func flip(b []byte, i int) []byte {
@@ -253,6 +254,23 @@ func TestC01(t *testing.T) {
 					other := vlib.Bytes(fmt.Sprintf("%s/%d/other", base, ci), maxInt(n, 2), false)
 					cell := c01Cells(path, content, other)[ci]
 					c01Run(rep, f, mode, impl, path, n, kind, cell, accepted, rejected)
+					if (cell.name == "size-1" || cell.name == "size+1") && kind != "zeros" {
+						// the same cell from a non-initial state: the true blob (same hash, true
+						// size) is already present, the upload claims another size for that hash
+						idx++
+						content2 := vlib.Bytes(fmt.Sprintf("%s/%d/present-before", base, ci), n, false)
+						if n == 1 {
+							content2 = []byte{byte(2*(idx%120) + 1)}
+						}
+						cell2 := c01Cells(path, content2, other)[ci]
+						cell2.name += "-true-blob-present"
+						cell2.presentBefore = true
+						if r := f.upload(upReq{path: "batch", hash: vlib.Sha(content2), size: int64(len(content2)), wire: content2, abortAfter: -1}); !r.ok {
+							rep.BrokenHarness("pre-upload failed: %s", r.status)
+						} else {
+							c01Run(rep, f, mode, impl, path, n, kind, cell2, accepted, rejected)
+						}
+					}
 				}
 			}
 		}
@@ -366,8 +384,14 @@ func c01Run(rep *vlib.Report, f *fx, mode, impl, path string, n int, kind string
 		if err == nil && fm {
 			rep.Violate(key+" rejected upload made the claimed digest present", fmt.Sprintf("%s: answered %s but FindMissingBlobs now reports %s/%d present", id, res.status, short(cell.req.hash), cell.req.size), replay)
 		}
+		if cell.presentBefore {
+			// the true blob must have survived the refused upload
+			if fm2, _, _ := f.present(trueHash, int64(len(cell.content))); !fm2 {
+				rep.Violate(key+" refused upload removed the blob that was present", id, replay)
+			}
+		}
 		// nothing may be stored under a hash the payload does not have
-		if cell.payload == nil || vlib.Sha(cell.payload) != cell.req.hash {
+		if !cell.presentBefore && (cell.payload == nil || vlib.Sha(cell.payload) != cell.req.hash) {
 			if files := f.filesFor(cell.req.hash); len(files) > 0 {
 				rep.Violate(key+" rejected upload left a file under the claimed hash", fmt.Sprintf("%s: answered %s but %v exists", id, res.status, files), replay)
 			}
